@@ -67,7 +67,7 @@ theorem tokenizeLines_sh (k : Nat) (E : Env) (P : Pats) : ∀ (fuel : Nat) (line
       cases brk with
       | true =>
         simp only [if_true]
-        rw [nextEndTokens_sh k E _ s1 (by omega)]
+        rw [nextEndTokens_sh k _ _ s1 (by omega)]
         simp [List.map_append]
       | false =>
         simp only [Bool.false_eq_true, if_false]
@@ -219,13 +219,13 @@ def Neutral (s : TState) : Prop :=
 /-- the line read last ends in a line break (or nothing was read) -/
 def EndsInNewline (l : List Nat) : Prop := l.getLast? = none ∨ l.getLast? = some 10 ∨ l.getLast? = some 13
 
-theorem nextEndTokens_ll (E : Env) (l l' : List Nat) (s : TState) (h : EndsInNewline l) (h' : EndsInNewline l') :
-    nextEndTokens E l s = nextEndTokens E l' s := by
-  have key : ∀ m, EndsInNewline m → nextEndTokens E m s = nextEndTokens E [] s := by
-    intro m hm
+theorem nextEndTokens_ll (l l' : List Nat) (c c' : Bool) (s : TState) (h : EndsInNewline l) (h' : EndsInNewline l') :
+    nextEndTokens l c s = nextEndTokens l' c' s := by
+  have key : ∀ m b, EndsInNewline m → nextEndTokens m b s = nextEndTokens [] false s := by
+    intro m b hm
     unfold nextEndTokens
     rcases hm with hm | hm | hm <;> simp [hm]
-  rw [key l h, key l' h']
+  rw [key l c h, key l' c' h']
 
 /-- a neutral state differs from the initial state only in the line counter and in the line it still holds -/
 theorem tokenizeLines_neutral (E : Env) (P : Pats) (fuel : Nat) (lines : List (List Nat)) (s : TState) (acc : List Tok5)
@@ -246,7 +246,7 @@ theorem tokenizeLines_neutral (E : Env) (P : Pats) (fuel : Nat) (lines : List (L
       cases brk with
       | true =>
         simp only [if_true]
-        rw [nextEndTokens_ll E s.line.toList (shSt s.lnum TState.init).line.toList s1 hl (Or.inl rfl)]
+        rw [nextEndTokens_ll s.line.toList (shSt s.lnum TState.init).line.toList s.commentLine (shSt s.lnum TState.init).commentLine s1 hl (Or.inl rfl)]
       | false => rfl
 
 
